@@ -543,6 +543,7 @@ package node
 //@   property C12
 //@   requires sel != nil
 //@   assigns nothing
+//@   decreases selLen(sel)
 
 // selecting a child: one Child request to the node; a nil child or an error yields no selection
 //@ func (sel *Selection) selekt(r *ChildRequest) (*Selection, error)
